@@ -1,8 +1,8 @@
 """C16 -- traceback text round trip (structural clauses)."""
 import ast
-from sa.index import AnalysisError
+from sa.index import AnalysisError, FuncInfo
 from sa.paths import call_name
-from rules.common import Quiet, with_helpers, string_values, guard_dnf, txt, module_regex, regex_skeleton, format_skeleton, paths_of, loc, tests_on
+from rules.common import returned_values, Quiet, with_helpers, string_values, guard_dnf, txt, module_regex, regex_skeleton, format_skeleton, paths_of, loc, tests_on
 
 SPEC = {
     'explanation': (
@@ -421,6 +421,36 @@ def run(ctx):
                            'constructor and the traceback module do)', ok, loc=loc(cf, o.node), detail='_DeferredLine(%s)' % ', '.join(exp))
         if not seen_dl:
             ctx.unknown('T25.globals', cf.fq, 'no _DeferredLine(...) construction found', cf.loc)
+        else:
+            # ... and on every path: a call point without a deferred line shows no source text where the traceback module
+            # (which asks linecache for any file name, including registered '<...>' names) shows one
+            without = [p2 for p2 in paths2 if p2.kind == 'return' and
+                       not any(o.kind == 'call' and call_name(o.val) == '_DeferredLine' for o in p2.ops)]
+            ctx.ob('T25.line', cf.fq, 'every call point is built with a deferred source line (no file name is exempted)', not without,
+                   loc=cf.loc, path=without[0].describe() if without else None)
+    # T9.trimmsg: ExceptionInfo renders "<type>: <message>" with the message as it is: the rendered text is never stripped
+    eci = prog.cls('tbutils.ExceptionInfo')
+    for nm in ('get_formatted', 'get_formatted_exception_only'):
+        gf = prog.resolve(eci, nm)
+        if not isinstance(gf, FuncInfo):
+            raise AnalysisError('anchor vanished: ExceptionInfo.%s' % nm)
+        from rules.common import PrivInl as _PI
+        bad = None
+        for e_, p_, w_ in returned_values(prog, gf, recv=eci, model=_PI(prog)):
+            if e_ is None:
+                continue
+            for c in ast.walk(e_):
+                if isinstance(c, ast.Call) and isinstance(c.func, ast.Attribute) and c.func.attr in ('strip', 'rstrip', 'lstrip'):
+                    rt = txt(c.func.value)
+                    for x in ast.walk(c.func.value):          # f-string tokens: look at the values of their holes
+                        if isinstance(x, ast.Name) and x.id.startswith('$s'):
+                            info = w_.tokens.get(x.id)
+                            if info and len(info) > 3:
+                                rt += ' ' + ' '.join(txt(w_.expand(v)) for v in info[3])
+                    if 'exc_msg' in rt:
+                        bad = (c, p_)
+        ctx.ob('T9.trimmsg', gf.fq, 'the rendered exception line is not stripped (trailing blanks belong to the message)', bad is None,
+               loc=gf.loc, detail=txt(bad[0])[:100] if bad else '', path=bad[1].describe() if bad else None)
     # the frame patterns accept any path / function text and digits for the line number
     import re._parser as sre_parse
     import re._constants as sre_c
